@@ -84,9 +84,9 @@ func init() {
 		Check: check,
 		Floor: func(tier string) int {
 			if tier == "thorough" {
-				return 1000000
+				return 800000
 			}
-			return 100000
+			return 120000
 		},
 		CounterFloors: func(tier string) map[string]int64 {
 			m := map[string]int64{
@@ -98,8 +98,12 @@ func init() {
 				"item_decllist_declaration": 5000, "item_decllist_error": 5000, "item_decllist_at-rule": 1000,
 				"item_blocks_declaration": 5000, "item_blocks_qualified-rule": 2000, "item_blocks_error": 5000,
 				"item_onedecl_declaration": 3000, "important_declarations": 500,
-				"anb_matches": 3000, "class_anb": 5000,
+				"anb_matches": 3000, "class_anb": 5000, "sources_nontrivial": 200000, "tokens_compared": 3000000,
 				"class_corpus": 1000, "class_x14": 40000, "class_x2": 40000, "class_x3": 40000,
+			}
+			if tier == "thorough" {
+				m["sources_nontrivial"] = 6000000
+				m["class_x14"], m["class_x2"], m["class_x3"] = 8000000, 570000, 570000
 			}
 			return m
 		},
